@@ -475,8 +475,9 @@ impl Space for VerIterSpace {
                     let r = subject(|| {
                         let mut items = 0u64;
                         let mut worst = 0u64;
+                        let mut over = 0u64;
                         if def {
-                            for (_, auxes) in VerDefIterator::new(e, class, count, start, &b) {
+                            for (vd, auxes) in VerDefIterator::new(e, class, count, start, &b) {
                                 items += 1;
                                 let mut n = 0u64;
                                 for _ in auxes {
@@ -484,6 +485,9 @@ impl Space for VerIterSpace {
                                     if n > cap {
                                         break;
                                     }
+                                }
+                                if n > vd.vd_cnt as u64 {
+                                    over = 1;
                                 }
                                 worst = worst.max(n);
                                 if items > cap {
@@ -491,7 +495,7 @@ impl Space for VerIterSpace {
                                 }
                             }
                         } else {
-                            for (_, auxes) in VerNeedIterator::new(e, class, count, start, &b) {
+                            for (vn, auxes) in VerNeedIterator::new(e, class, count, start, &b) {
                                 items += 1;
                                 let mut n = 0u64;
                                 for _ in auxes {
@@ -500,19 +504,22 @@ impl Space for VerIterSpace {
                                         break;
                                     }
                                 }
+                                if n > vn.vn_cnt as u64 {
+                                    over = 1;
+                                }
                                 worst = worst.max(n);
                                 if items > cap {
                                     break;
                                 }
                             }
                         }
-                        items.max(worst) | ((items > count) as u64) << 40
+                        items.max(worst) | (((items > count) as u64) | over) << 40
                     });
                     let r2 = match r {
                         Ok(v) if v >> 40 != 0 && self.also == Also::Bounded => {
                             out.violate(
                                 format!("count-exceeded:{}", if def { "VerDefIterator" } else { "VerNeedIterator" }),
-                                format!("yielded more than the declared count {count}"),
+                                format!("yielded more records than the declared count {count}, or more aux entries than a record's declared cnt"),
                             );
                             Ok(v & 0xffff_ffff)
                         }
